@@ -109,7 +109,7 @@ func detectBracketedPaste(input []byte) (hasBp bool, width int, msg Msg) {
 	k := Key{Type: KeyRunes, Paste: true}
 	for len(paste) > 0 {
 		r, w := utf8.DecodeRune(paste)
-		if r != utf8.RuneError {
+		if r != utf8.RuneError || w > 1 {
 			k.Runes = append(k.Runes, r)
 		}
 		paste = paste[w:]
